@@ -17,7 +17,8 @@ static Result run_c07(const Case &c) {
     if (!in.ok()) { unsetenv("LIBERASURECODE_WRITE_LEGACY_CRC"); r.fail("create refused rc=" + std::to_string(in.desc)); return r; }
     // "pure function of (configuration, data)": also of nothing the descriptor did before
     unsetenv("LIBERASURECODE_WRITE_LEGACY_CRC");       // (the earlier calls run with the switch off: their expected outputs are the standard ones)
-    prehistory(in.desc, g, c.ints("hist"), r);
+    std::vector<std::unique_ptr<Instance>> keep;          // siblings that stay alive across the encode
+    prehistory(in.desc, g, c.ints("hist"), r, &keep);
     if (!r.ok) return r;
     if (legacy) setenv("LIBERASURECODE_WRITE_LEGACY_CRC", "1", 1);
     Stripe s = encode(in.desc, g, data);
@@ -93,6 +94,21 @@ static Result run_c08(const Case &c) {
     if (!in.ok()) { r.fail("create refused rc=" + std::to_string(in.desc)); return r; }
     std::unique_ptr<Instance> after_wrap;
     if (c.get("wrap")) { Config g2 = g; if (g2.backend != ref::B_XOR) { g2.k = 2; g2.m = 1; g2.hd = 1; } after_wrap.reset(new Instance(g2)); r.cls("counter_wrapped_while_live"); }
+    // other instances come and go while this one lives (descriptor values far apart, registry order changes)
+    int churn = (int)c.get("churn", 0);
+    if (churn > 0) {
+        Config g3 = g; if (g3.backend != ref::B_XOR) { g3.k = 2; g3.m = 1; g3.hd = 1; }
+        std::vector<int> live;
+        for (int i = 0; i < churn; i++) {
+            int d3 = create(g3);
+            if (d3 <= 0) { r.fail("create number " + std::to_string(i) + " while another instance lives failed rc=" + std::to_string(d3)); break; }
+            if (d3 == in.desc) r.fail("create returned the descriptor of a live instance");
+            live.push_back(d3);
+            if ((i % 3) != 2 || i + 1 == churn) { liberasurecode_instance_destroy(live.back()); live.pop_back(); }
+        }
+        while (!live.empty()) { liberasurecode_instance_destroy(live.back()); live.pop_back(); }
+        r.cls("churn_" + std::to_string(churn >= 64 ? 64 : churn >= 8 ? 8 : 1) + "plus");
+    }
     uint64_t unit = (uint64_t)g.k * ref::word_bytes(g);
     int fs = liberasurecode_get_fragment_size(in.desc, (int)len);
     int al = liberasurecode_get_aligned_data_size(in.desc, len);
@@ -144,6 +160,7 @@ static Case gen_c08() {
     bool wrap = coin(1, 6);
     c.set("wrap", wrap ? 1 : 0);
     c.set("counter", wrap ? INT32_MAX - 1 - pick(0, 1) * 0 : (coin(1, 3) ? pick(0, 100000) : 0));
+    if (coin(1, 8)) { static const int cs[] = {1, 7, 63, 64, 65, 127, 128, 129, 255, 256, 257}; c.set("churn", coin(2, 3) ? cs[pick(0, 10)] : (int)pick(1, 300)); }
     return c;
 }
 static void sweep_c08() {
@@ -293,7 +310,8 @@ static Result run_c04_parity(const Case &c) {
     Instance in(g);
     if (!in.ok()) { r.fail("create refused"); return r; }
     // bit-stable: the parity bytes do not depend on what the descriptor decoded or rebuilt before
-    prehistory(in.desc, g, c.ints("hist"), r);
+    std::vector<std::unique_ptr<Instance>> keep;
+    prehistory(in.desc, g, c.ints("hist"), r, &keep);
     if (!r.ok) return r;
     Stripe s = encode(in.desc, g, data);
     if (s.rc != 0) { r.fail("encode failed"); return r; }
